@@ -133,6 +133,15 @@ def main() -> int:
         print("SELFTEST %s: flipped hMerge/is_spanned of one cell -> %s" % ("ok" if ok else "FAILED", bad))
         if not ok:
             raise E.MachineryError("selftest failed")
+        g = json.loads(json.dumps(next(x for x in groups if any(not s["same"] and s["a"]["op"] == "merge" and s["out"] == "ok" for s in x["steps"]))))
+        k = next(i for i, s in enumerate(g["steps"]) if not s["same"] and s["a"]["op"] == "merge" and s["out"] == "ok")
+        g["steps"] = [g["steps"][k]]
+        g["steps"][0]["kept"] = [[{"o": False, "sp": False, "sh": 1, "sw": 1} for _ in row] for row in g["steps"][0]["kept"]]    # a stale view
+        bad, _, _ = E.validate("Trace_Table", {"groups": [g]}, work=work, name="selftest2")
+        ok = len(bad) == 1 and "KeptObjectAgrees" in bad[0]["bad"][0]["failing"]
+        print("SELFTEST %s: the kept Table object reports the cells as unmerged after a merge -> %s" % ("ok" if ok else "FAILED", str(bad)[:200]))
+        if not ok:
+            raise E.MachineryError("selftest failed")
     bad, tot = validate_groups(groups, work, "obs")
     byid = {g["id"]: g for g in groups}
     for v in bad:
